@@ -59,6 +59,42 @@ def gen(module, cfg, tag, work, name, timeout=600, simulate=None, depth=None, wo
     return path, len(uniq), r
 
 
+def validate_impl_trace(res, work, path, name, i, pid):
+    """recorded hook-level trace of the real Router must be a behaviour of Router.tla (Trace_Router); a rejected line is a
+    violation of the case it belongs to, and validation resumes at the next case"""
+    lines = open(path).read().splitlines()
+    start = 0
+    for attempt in range(6):
+        tr = path if start == 0 else os.path.join(work, "trr_rest_%s_%d.ndjson" % (name, i))
+        if start:
+            with open(tr, "w") as f:
+                f.write("\n".join(lines[start:]) + "\n")
+        r = tlc("Trace_Router.tla", "Trace_Router.cfg", os.path.join(work, "trr_%s_%d" % (name, i)), workers=1, timeout=900,
+                env={"TRACE": tr}, trace_mode=True)
+        res.cov["impl_trace_states"] = res.cov.get("impl_trace_states", 0) + r["distinct"]
+        if '"ACCEPTED"' in r["out"]:
+            res.cov["impl_trace_lines"] = res.cov.get("impl_trace_lines", 0) + len(lines) - start
+            return
+        rej = prints(r["out"], "REJECTED")
+        inv = "is violated" in r["out"]
+        if not rej and not inv:
+            raise ToolError("Trace_Router failed on %s:\n%s" % (tr, r["out"][-3000:]))
+        consumed = rej[0]["consumed"] if rej else r["distinct"] - 1
+        at = start + consumed                      # index of the line that no action of Router.tla explains
+        first = max(j for j in range(at + 1) if j < len(lines) and '"ev":"Reset"' in lines[j]) if any('"ev":"Reset"' in x for x in lines[:at + 1]) else 0
+        nxt = next((j for j in range(at + 1, len(lines)) if '"ev":"Reset"' in lines[j]), len(lines))
+        case = json.loads(lines[first]).get("case") if first < len(lines) else None
+        what = ("Router.tla invariant violated in the recorded trace" if inv and not rej else
+                "recorded line is not a step of Router.tla: %s" % json.dumps(rej[0]["line"]))
+        p = save_replay(work, "%s_%s_impltrace_case%s" % (pid, name, case),
+                        {"property": pid, "reason": what, "line_in_case": at - first, "events": [json.loads(x) for x in lines[first:nxt]][:400]})
+        res.violation(p, "%s case %s: %s" % (name, case, what[:300]))
+        res.cov["impl_trace_lines"] = res.cov.get("impl_trace_lines", 0) + (nxt - start)
+        if nxt >= len(lines):
+            return
+        start = nxt
+
+
 def replay_and_judge(res, work, sub, inp, name, shards, extra, pid, timeout=1200):
     vh = build_harness()
     outs = [os.path.join(work, "%s.events.%d.ndjson" % (name, i)) for i in range(shards)]
@@ -66,6 +102,10 @@ def replay_and_judge(res, work, sub, inp, name, shards, extra, pid, timeout=1200
     for rc, out in parallel(cmds, timeout):
         if rc != 0:
             raise ToolError("harness %s failed (%s): %s" % (sub, rc, out[-2000:]))
+    if sub == "router-replay":
+        import concurrent.futures
+        with concurrent.futures.ThreadPoolExecutor(max_workers=4) as ex:
+            list(ex.map(lambda i: validate_impl_trace(res, work, outs[i], name, i, pid), range(shards)))
     nviol = 0
     for i, o in enumerate(outs):
         r = tlc("Trace_RouterIdeal.tla", "Trace_RouterIdeal.cfg", os.path.join(work, "tr_%s_%d" % (name, i)), workers=1,
